@@ -288,3 +288,53 @@ pub fn lambda_for_encoder_radicand(c: &crate::model::Curve, pt: &crate::model::P
     let h = f.sqrt(&q)?;
     f.sqrt(&h).or_else(|| f.sqrt(&f.neg(&h)))
 }
+
+/// Encodings s for which two *intermediate quantities* of the decoder coincide or are negatives of each other
+/// (s, 2s, s^2, u1 = 1 - s^2, 1 + s^2, u1^2, 4d s, 4d s^2, u2, u2 u1^2, and the constants 1, 2, 4d, d, a - d): every
+/// root in the field of A(s) -+ B(s) for every pair. A guard, shortcut or fused operation that compares or merges
+/// two of these meets its case exactly on these inputs (a sparse algebraic set no sampling reaches).
+pub fn decode_s_coinciding_intermediates(ctx: &Ctx) -> Vec<B> {
+    use std::sync::OnceLock;
+    static CACHE: OnceLock<Vec<B>> = OnceLock::new();
+    CACHE.get_or_init(|| {
+        let c = &ctx.c;
+        let f = &c.f;
+        let mut rng = crate::mon::rng_for(1, "coinciding-intermediates", 0, 0);
+        let fd = f.mul(&b(4), &c.d);
+        let u1: Poly = vec![b(1), b(0), f.neg(&b(1))];
+        let u1sq = pmul(f, &u1, &u1);
+        let u2 = psub(f, &u1sq, &vec![b(0), b(0), fd.clone()]);
+        let polys: Vec<Poly> = vec![
+            vec![b(0), b(1)],
+            vec![b(0), b(2)],
+            vec![b(0), b(0), b(1)],
+            u1.clone(),
+            vec![b(1), b(0), b(1)],
+            u1sq.clone(),
+            vec![b(0), fd.clone()],
+            vec![b(0), b(0), fd.clone()],
+            u2.clone(),
+            pmul(f, &u2, &u1sq),
+            vec![b(1)],
+            vec![b(2)],
+            vec![fd.clone()],
+            vec![c.d.clone()],
+            vec![f.sub(&c.a, &c.d)],
+        ];
+        let mut out: Vec<B> = Vec::new();
+        for i in 0..polys.len() {
+            for j in i + 1..polys.len() {
+                let neg_j: Poly = polys[j].iter().map(|x| f.neg(x)).collect();
+                for q in [psub(f, &polys[i], &polys[j]), psub(f, &polys[i], &neg_j)] {
+                    for r in roots(f, &q, &mut rng) {
+                        out.push(f.abs(&r));
+                        out.push(r);
+                    }
+                }
+            }
+        }
+        out.sort();
+        out.dedup();
+        out
+    }).clone()
+}
